@@ -140,6 +140,16 @@ func stormTag(err string) string {
 	return ""
 }
 
+// bootTag marks a failed stabilisation in which a member still had no routing table at all when
+// the bound ran out (known finding "member-not-bootstrapped": its first push was rejected and the
+// coordinator's next table computation stalls on probing it).
+func bootTag(err string) string {
+	if strings.Contains(err, "routing not initialised") {
+		return " member-not-bootstrapped"
+	}
+	return ""
+}
+
 func fpKey(res *plan.Result) string { return fmt.Sprintf("%x", res.Fingerprint) }
 
 // partitionsFor draws a partition count that the consistent-hash library accepts
